@@ -122,6 +122,25 @@ func cmdSelftest(args []string) int {
 	}
 	fmt.Printf("selftest: gosym concrete mode == native generator on %d/%d fixture profiles\n", agree, len(texts))
 
+	// 2b. library models: probes of standard-library calls a change to the repository may introduce
+	probes := []string{"SyncOnce", "Sort", "Strings", "Strconv", "Errors", "Fmt", "Regexp", "JSON", "IO", "OSPath", "TimeContext", "GenericsClosures"}
+	okProbes := 0
+	for _, pr := range probes {
+		r, err := eng.Run(modPath+"/internal/misc", "VerifLib"+pr)
+		if err != nil {
+			fails++
+			fmt.Println("SELFTEST FAIL: library probe", pr, err)
+			continue
+		}
+		if len(r.Unsupported) > 0 || len(r.Violations) > 0 || r.Reach["done"] == 0 {
+			fails++
+			fmt.Printf("SELFTEST FAIL: library probe %s: unsupported=%v violations=%d\n", pr, r.Unsupported, len(r.Violations))
+			continue
+		}
+		okProbes++
+	}
+	fmt.Printf("selftest: executor follows %d/%d standard-library probe harnesses (sync, sort, strings, strconv, errors, fmt, regexp, encoding/json, io, os/path, time/context, generics)\n", okProbes, len(probes))
+
 	// 3. regosym concrete mode vs real OPA on fixture pairs
 	dirs, _ := filepath.Glob(filepath.Join(repoDir, "test/data/integration/*"))
 	tck, _ := filepath.Glob(filepath.Join(repoDir, "test/data/tck/*/*"))
